@@ -174,6 +174,14 @@ func runC15(c c15case, rep *lib.Report) {
 			req.Body = io.NopCloser(bytes.NewReader(bodyOf(c.size)))
 			rep.Count("requests_of_unknown_length_without_chunking")
 		}
+		if c.chunk == -2 && c.size > 1 {
+			// the declared length UNDERSTATES what the body delivers (a decompressing or body-rewriting handler in
+			// front that kept the original Content-Length): the limit is on the bytes actually read
+			req.ContentLength = 1
+			req.Header.Set("Content-Length", "1")
+			req.Body = io.NopCloser(bytes.NewReader(bodyOf(c.size)))
+			rep.Count("requests_whose_declared_length_understates_the_body")
+		}
 	} else {
 		opts = append(opts, buffer.MemResponseBodyBytes(int64(c.lim.mem)))
 		if c.lim.max > 0 {
@@ -231,6 +239,8 @@ func runC15(c c15case, rep *lib.Report) {
 	framing := "declared"
 	if c.chunk > 0 {
 		framing = "chunked"
+	} else if c.chunk == -2 {
+		framing = "understated-length"
 	} else if c.chunk < 0 {
 		framing = "unknown-length"
 	}
@@ -320,7 +330,7 @@ func c15cases(tier string) []c15case {
 	}
 	for _, l := range lims {
 		for _, size := range sizesFor(l) {
-			for _, chunk := range []int{0, 1, 5, -1} {
+			for _, chunk := range []int{0, 1, 5, -1, -2} {
 				for _, method := range []string{"POST", "PUT"} {
 					for _, retries := range []int{0, 1, 2} {
 						out = append(out, c15case{side: "request", lim: l, size: size, chunk: chunk, method: method, retries: retries, clientBreaksAt: -1})
@@ -370,7 +380,7 @@ func c15cases(tier string) []c15case {
 func RunC15(tier string, sh lib.Shard, rep *lib.Report) {
 	cases := c15cases(tier)
 	rep.Bounds["cases"] = len(cases)
-	rep.Rule = "full product (memory threshold, maximum) in {(8,16),(16,16),(32,16),(8,unlimited)} x size {0,mem-1,mem,mem+1,max-1,max,max+1,2max} x request framing {declared, chunked 1/5, unknown length without chunking (HTTP/2 stream)} / response write pattern {one, straddling mem, straddling max, bytewise} x method x response status {200,204,304,500} x header {-,Content-Length:0,Grpc-Status:1} x retries {0,1,2}, also for requests that ask for an upgrade which the handler declines; long-lived Buffer instances (one per side x limits x retries) serving their cases in sequence; private $TMPDIR per worker inspected after every exchange; non-trivial = exchanges that spilled to disk or exceeded a limit"
+	rep.Rule = "full product (memory threshold, maximum) in {(8,16),(16,16),(32,16),(8,unlimited)} x size {0,mem-1,mem,mem+1,max-1,max,max+1,2max} x request framing {declared, chunked 1/5, unknown length without chunking (HTTP/2 stream), declared length understating the body} / response write pattern {one, straddling mem, straddling max, bytewise} x method x response status {200,204,304,500} x header {-,Content-Length:0,Grpc-Status:1} x retries {0,1,2}, also for requests that ask for an upgrade which the handler declines; long-lived Buffer instances (one per side x limits x retries) serving their cases in sequence; private $TMPDIR per worker inspected after every exchange; non-trivial = exchanges that spilled to disk or exceeded a limit"
 	rep.Require("request_spills", "response_spills", "oversized_requests", "oversized_responses", "aborted_exchanges", "broken_client_connections")
 	for i, c := range cases {
 		if !sh.Mine(i) {
